@@ -15,6 +15,7 @@ func init() { runners["C13"] = runner{run: runC13, replay: nil} }
 type c13Content struct {
 	Plain   []string           `json:"plain_keys"`
 	Scoped  []string           `json:"scoped_keys"`
+	Rekeyed map[string]string  `json:"rekeyed_scopes"` // map key -> the Key field of the scope stored under it (differs)
 	Revs    map[string]int64   `json:"revocations"`
 	ExpRevs map[string]int64   `json:"export_revocations"`
 	Maps    []string           `json:"mapping_subjects"`
@@ -51,6 +52,12 @@ func buildAccount(ct c13Content, r *Rng) *jwt.AccountClaims {
 			us.Template.Pub.Allow.Add("a.>")
 			us.Template.Subs = 5
 			a.SigningKeys.AddScopedSigner(us)
+			if other, ok := ct.Rekeyed[k]; ok {
+				// the scope handed back by the map is shared by pointer: re-key it without re-adding
+				if sc, ok := a.SigningKeys.GetScope(k); ok && sc != nil {
+					sc.(*jwt.UserScope).Key = other
+				}
+			}
 		})
 	}
 	for k, v := range ct.Revs {
@@ -103,7 +110,7 @@ func buildGeneric(ct c13Content, r *Rng) *jwt.GenericClaims {
 }
 
 func runC13(c *Ctx) {
-	c.Res.Rule = "equal contents built through random insertion orders of signing keys (plain and scoped), account and export revocations, mappings, limit tiers and generic data (incl. a nested object); each object encoded repeatedly in one process (the runtime re-randomises map iteration per loop) under GOMAXPROCS 1 and 16; all tokens whose issue time agrees must be byte-identical, across objects and across repetitions. Each object also goes through the Lean model's Encode. non-trivial = distinct contents."
+	c.Res.Rule = "equal contents built through random insertion orders of signing keys (plain, scoped, and scoped entries whose Key field was re-keyed to collide with another entry), account and export revocations, mappings, limit tiers and generic data (incl. a nested object); each object encoded repeatedly in one process (the runtime re-randomises map iteration per loop) under GOMAXPROCS 1 and 16; all tokens whose issue time agrees must be byte-identical, across objects and across repetitions. Each object also goes through the Lean model's Encode. non-trivial = distinct contents."
 	old := runtime.GOMAXPROCS(0)
 	defer runtime.GOMAXPROCS(old)
 	nContents := c.N(60, 3000)
@@ -117,6 +124,20 @@ func runC13(c *Ctx) {
 		}
 		for k := 0; k < c.R.Intn(5); k++ {
 			ct.Scoped = append(ct.Scoped, pubOf(kpN('A', 20+k)))
+		}
+		if len(ct.Scoped) > 0 && c.R.Intn(2) == 0 {
+			ct.Rekeyed = map[string]string{}
+			all := append(append([]string{}, ct.Plain...), ct.Scoped...)
+			for k := 0; k < 1+c.R.Intn(2); k++ {
+				from := ct.Scoped[c.R.Intn(len(ct.Scoped))]
+				to := all[c.R.Intn(len(all))]
+				if c.R.Intn(4) == 0 {
+					to = pubOf(kpN('A', 30+k))
+				}
+				if to != from {
+					ct.Rekeyed[from] = to
+				}
+			}
 		}
 		for k := 0; k < c.R.Intn(6); k++ {
 			ct.Revs[[]string{"*", pubOf(kpN('U', k)), "x" + fmt.Sprint(k)}[c.R.Intn(3)]] = int64(c.R.Intn(1000))
